@@ -1,10 +1,119 @@
 import DFV.JsonField
+import DFV.Model.C17
 namespace DFV.Drv
-open Lean DFV
+open Lean DFV DFV.C17
 
-/-- driver ops of property C17 (stub: no ops yet) -/
+/-! JSON glue of property C17 (trusted correspondence glue, not model).  Field values travel
+as opaque string tokens (the harness canonicalises every number to a string). -/
+
+def c17OptRats (j : Json) (k : String) : R (Option (List Rat)) :=
+  match fldOpt j k with
+  | none => pure none
+  | some v => some <$> listOf ratOfJson v
+
+def c17OptRat (j : Json) (k : String) : R (Option Rat) :=
+  match fldOpt j k with
+  | none => pure none
+  | some v => some <$> ratOfJson v
+
+def c17NvOfJson (j : Json) : R (Option NvAttr) :=
+  match fldOpt j "nvdim" with
+  | none => pure none
+  | some v =>
+    match fldOpt v "int" with
+    | some i => do pure (some (.int (← intOfJson i)))
+    | none => do pure (some (.other (← ratOfJson (← fld v "other"))))
+
+def c17AttrsOfJson (j : Json) : R Attrs := do
+  pure { units := ← optStrOfJson j "units", cell := ← c17OptRats j "cell", pmin := ← c17OptRats j "pmin",
+         pmax := ← c17OptRats j "pmax", nvdim := ← c17NvOfJson j, tol := ← c17OptRat j "tol" }
+
+def c17OptRatsJ : Option (List Rat) → Json
+  | none => .null
+  | some l => ratsJ l
+
+def c17AttrsToJson (a : Attrs) : Json :=
+  Json.mkObj [("units", optStrJ a.units), ("cell", c17OptRatsJ a.cell), ("pmin", c17OptRatsJ a.pmin),
+    ("pmax", c17OptRatsJ a.pmax),
+    ("nvdim", match a.nvdim with
+      | none => .null
+      | some (.int k) => Json.mkObj [("int", .num (JsonNumber.fromInt k))]
+      | some (.other q) => Json.mkObj [("other", ratToJson q)]),
+    ("tol", match a.tol with | none => .null | some t => ratToJson t)]
+
+def c17AxisOfJson (j : Json) : R Axis := do
+  let name ← strOfJson (← fld j "name")
+  let size ← natOfJson (← fld j "size")
+  let coord ← match fldOpt j "coord" with
+    | none => pure none
+    | some c => do pure (some { vals := ← rats c "vals", units := ← optStrOfJson c "units" : Coord })
+  pure { name, size, coord }
+
+def c17AxisToJson (a : Axis) : Json :=
+  Json.mkObj [("name", .str a.name), ("size", .num (JsonNumber.fromNat a.size)),
+    ("coord", match a.coord with
+      | none => .null
+      | some c => Json.mkObj [("vals", ratsJ c.vals), ("units", optStrJ c.units)])]
+
+def c17DataOfJson (j : Json) : R (NDA String) := do
+  let shape ← nats j "shape"
+  let xs ← listOf strOfJson (← fld j "data")
+  if xs.length ≠ natProd shape then throw s!"data length {xs.length} ≠ prod shape {natProd shape}"
+  pure (NDA.ofList shape xs "?")
+
+def c17XaOfJson (j : Json) : R (XA String) := do
+  pure { name := ← strOfJson (← fld j "name"), axes := ← listOf c17AxisOfJson (← fld j "axes"),
+         vdimsCoord := ← optStrsOfJson j "vdims", data := ← c17DataOfJson j,
+         attrs := ← c17AttrsOfJson (← fld j "attrs"), dtype := ← strOfJson (← fld j "dtype") }
+
+def c17XaToJson (xa : XA String) : Json :=
+  Json.mkObj [("name", .str xa.name), ("axes", listJ c17AxisToJson xa.axes), ("dims", strsJ xa.dims),
+    ("vdims", optStrsJ xa.vdimsCoord), ("shape", natsJ xa.data.shape), ("data", strsJ xa.data.toList),
+    ("attrs", c17AttrsToJson xa.attrs), ("dtype", .str xa.dtype)]
+
+def c17FldOfJson (j : Json) : R (XFld String) := do
+  let mesh ← meshOfJson (← fld j "mesh")
+  let nvdim ← natOfJson (← fld j "nvdim")
+  let data ← c17DataOfJson j
+  let valid ← match fldOpt j "valid" with
+    | some v => listOf boolOfJson v
+    | none => pure (List.replicate (natProd mesh.n) true)
+  if valid.length ≠ natProd mesh.n then throw "valid length"
+  pure { mesh, nvdim, data, valid := NDA.ofList mesh.n valid false, vdims := ← optStrsOfJson j "vdims",
+         vmap := ← pairsOfJson j "vmap", unit := ← optStrOfJson j "unit", dtype := ← strOfJson (← fld j "dtype") }
+
+def c17FldToJson (f : XFld String) : Json :=
+  Json.mkObj [("mesh", meshToJson f.mesh), ("nvdim", .num (JsonNumber.fromNat f.nvdim)),
+    ("shape", natsJ f.data.shape), ("data", strsJ f.data.toList), ("valid", boolsJ f.valid.toList),
+    ("vdims", optStrsJ f.vdims), ("vmap", pairsJ f.vmap), ("unit", optStrJ f.unit), ("dtype", .str f.dtype)]
+
+def c17ArgOfJson (j : Json) (k : String) (dflt : PyArg) : R PyArg :=
+  match j.getObjVal? k with
+  | .error _ => pure dflt
+  | .ok .null => pure .none
+  | .ok (.str s) => pure (.str s)
+  | .ok _ => pure .other
+
+/-- ops of property C17 -/
 def c17 (op : String) (j : Json) : Option (R Json) :=
   match op with
+  | "export" => some do
+      let f ← c17FldOfJson (← fld j "field")
+      let name ← c17ArgOfJson j "name" (.str "field")
+      let unit ← c17ArgOfJson j "unit" .none
+      pure ((resJ c17XaToJson (toXarray f name unit)).setObjVal! "wf" (.bool f.wfB))
+  | "import" => some do
+      match fldOpt j "xa" with
+      | none => pure (resJ c17FldToJson (fromXarray (PyObj.other : PyObj String)))
+      | some x =>
+        let xa ← c17XaOfJson x
+        -- how far each geometric coordinate is from the spacing threshold: the largest
+        -- |d - mean| / (atol + rtol·|mean|) over the axis (≤ 1 passes), for the comparator
+        let margin := (geo xa).map fun a =>
+          if a.values.length ≤ 1 then (0 : Rat)
+          else listMax ((diffs a.values).map fun d =>
+            absR (d - meanDiff a.values) / (1/100000000 + 1/100000 * absR (meanDiff a.values)))
+        pure ((resJ c17FldToJson (fromXarray (.dataArray xa))).setObjVal! "margin" (ratsJ margin))
   | _ => none
 
 end DFV.Drv
